@@ -66,6 +66,7 @@ func (d Domain) String() string {
 }
 
 type FInfo struct {
+	enclosed bool // value is a sound enclosure of the IEEE result (delta model)
 	exact  bool
 	scale  int // value * 2^scale is an integer (when scale >= 0 known); -1 unknown
 	lo, hi *big.Rat
@@ -506,7 +507,7 @@ func (s *State) xbinop(op token.Token, a, b *Term) Value {
 	ia, ib := s.info(a), s.info(b)
 	switch op {
 	case token.EQL, token.NEQ, token.LSS, token.LEQ, token.GTR, token.GEQ:
-		if !(ia.exact && ib.exact) {
+		if !((ia.exact || ia.enclosed) && (ib.exact || ib.enclosed)) {
 			s.run.idealCmps++
 		}
 		switch op {
@@ -617,11 +618,15 @@ func (s *State) xbinop(op token.Token, a, b *Term) Value {
 			// exact rounding model RN53 for integer-valued results
 			rr := s.rn53(r, n)
 			return rr
+		} else if s.eng.cfg.DeltaModel {
+			return s.enclose(r, n, 53)
 		} else {
 			n.exact = false
 			s.run.idealOps++
 			s.run.noteInexact(s.site())
 		}
+	} else if s.eng.cfg.DeltaModel && (ia.exact || ia.enclosed) && (ib.exact || ib.enclosed) {
+		return s.enclose(r, n, 53)
 	} else {
 		s.run.idealOps++
 	}
@@ -629,9 +634,49 @@ func (s *State) xbinop(op token.Token, a, b *Term) Value {
 	return r
 }
 
+// enclose: standard model of rounding, fl(x) = x(1+d), |d| <= 2^-P (valid for results in the normal
+// range; operands here are exact or themselves enclosed). The result is a fresh real constrained to
+// that interval, so BOTH outcomes of any later comparison that rounding could flip are explored:
+// verdicts hold for the IEEE value, not only for the ideal one.
+func (s *State) enclose(r *Term, n *FInfo, P int) *Term {
+	c := s.ctx
+	s.fresh++
+	v := c.Var(fmt.Sprintf("fl!%d", s.fresh), SReal)
+	u := new(big.Rat).SetFrac(big.NewInt(1), new(big.Int).Lsh(big.NewInt(1), uint(P)))
+	one := big.NewRat(1, 1)
+	lo := c.RealConst(new(big.Rat).Sub(one, u))
+	hi := c.RealConst(new(big.Rat).Add(one, u))
+	rr := c.ToReal(r)
+	zero := c.RealConst(new(big.Rat))
+	pos := c.And(c.Le(c.Mul(rr, lo), v), c.Le(v, c.Mul(rr, hi)))
+	neg := c.And(c.Le(c.Mul(rr, hi), v), c.Le(v, c.Mul(rr, lo)))
+	s.assumeRaw(c.Ite(c.Le(zero, rr), pos, neg))
+	// normal-range side condition: |r| >= 2^-1000 or r == 0
+	tiny := c.RealConst(new(big.Rat).SetFrac(big.NewInt(1), new(big.Int).Lsh(big.NewInt(1), 1000)))
+	absr := c.Ite(c.Lt(rr, zero), c.Neg(rr), rr)
+	s.assumeCut(c.Or(c.Eq(rr, zero), c.Le(tiny, absr)), "delta model: result below the normal range")
+	m := &FInfo{exact: false, enclosed: true, scale: -1}
+	if n != nil && n.lo != nil {
+		w := new(big.Rat).Add(one, u)
+		m.lo, m.hi = new(big.Rat).Mul(n.lo, w), new(big.Rat).Mul(n.hi, w)
+		if m.lo.Cmp(n.lo) > 0 {
+			m.lo = new(big.Rat).Mul(n.lo, new(big.Rat).Sub(one, u))
+		}
+		if m.hi.Cmp(n.hi) < 0 {
+			m.hi = new(big.Rat).Mul(n.hi, new(big.Rat).Sub(one, u))
+		}
+	}
+	s.setInfo(v, m)
+	s.run.enclosedOps++
+	return v
+}
+
 // rn53 returns a fresh Int variable constrained to be round-to-nearest-even (53-bit significand)
 // of the integer-valued term r whose magnitude is bounded by info.
-func (s *State) rn53(r *Term, info *FInfo) *Term {
+func (s *State) rn53(r *Term, info *FInfo) *Term { return s.rnP(r, info, 53) }
+
+// rnP: round-to-nearest-even to a P-bit significand of an integer-valued term (exact model).
+func (s *State) rnP(r *Term, info *FInfo, P int) *Term {
 	c := s.ctx
 	m := new(big.Rat).Abs(info.lo)
 	if h := new(big.Rat).Abs(info.hi); h.Cmp(m) > 0 {
@@ -640,11 +685,11 @@ func (s *State) rn53(r *Term, info *FInfo) *Term {
 	// number of binades above 2^53
 	mi := new(big.Int).Div(m.Num(), m.Denom())
 	top := mi.BitLen() // m < 2^top
-	if top <= 53 {
+	if top <= P {
 		return r
 	}
-	if top-53 > 12 {
-		panic(abortf("rn53: too many binades (%d)", top-53))
+	if top-P > 12 {
+		panic(abortf("rnP: too many binades (%d)", top-P))
 	}
 	s.fresh++
 	v := c.Var(fmt.Sprintf("rn!%d", s.fresh), SInt)
@@ -654,11 +699,11 @@ func (s *State) rn53(r *Term, info *FInfo) *Term {
 	}
 	abs := c.Ite(c.Lt(ri, c.IntConst(0)), c.Neg(ri), ri)
 	p2 := func(k int) *Term { return c.IntConstBig(new(big.Int).Lsh(big.NewInt(1), uint(k))) }
-	// |r| < 2^53 -> v = r
-	conds := []*Term{c.Implies(c.Lt(abs, p2(53)), c.Eq(v, ri))}
-	for k := 53; k < top; k++ {
-		// 2^k <= |r| < 2^(k+1): ulp u = 2^(k-52); v multiple of u, |v - r| <= u/2, ties to even multiple
-		u := k - 52
+	// |r| < 2^P -> v = r
+	conds := []*Term{c.Implies(c.Lt(abs, p2(P)), c.Eq(v, ri))}
+	for k := P; k < top; k++ {
+		// 2^k <= |r| < 2^(k+1): ulp u = 2^(k-P+1); v multiple of u, |v - r| <= u/2, ties to even multiple
+		u := k - P + 1
 		in := c.And(c.Le(p2(k), abs), c.Lt(abs, p2(k+1)))
 		s.fresh++
 		q := c.Var(fmt.Sprintf("rnq!%d", s.fresh), SInt) // v = q*u
